@@ -702,6 +702,33 @@ func (r *FnRun) unop(fr *Frame, st *State, x *ssa.UnOp) Val {
 		// channel receive: any value
 		r.note("channel receive yields an arbitrary value")
 		res := r.freshVal(st, x.Type(), "recv")
+		// "recvhavoc T.ch f...": receiving from field ch of an object
+		// synchronises with the goroutine owning its fields f
+		if u, ok := x.X.(*ssa.UnOp); ok && u.Op == token.MUL && r.e.cs.RecvHavoc != nil {
+			if fa, ok := u.X.(*ssa.FieldAddr); ok {
+				if pt, ok := fa.X.Type().Underlying().(*types.Pointer); ok {
+					if stt, ok := under(pt.Elem()).(*types.Struct); ok {
+						if n, ok := types.Unalias(pt.Elem()).(*types.Named); ok && n.Obj().Pkg() != nil {
+							key := n.Obj().Pkg().Path() + "::" + n.Obj().Name() + "." + stt.Field(fa.Field).Name()
+							if fields := r.e.cs.RecvHavoc[key]; len(fields) > 0 {
+								if obj, ok := r.val(fr, st, fa.X).(PtrVal); ok && obj.Kind == pkHeap {
+									for i := 0; i < stt.NumFields(); i++ {
+										for _, fn := range fields {
+											if stt.Field(i).Name() == fn {
+												p := obj
+												p.Path = joinPath(obj.Path, fn)
+												p.Elem = stt.Field(i).Type()
+												r.havocArgs(st, []Val{p})
+											}
+										}
+									}
+								}
+							}
+						}
+					}
+				}
+			}
+		}
 		// a contract file may count receive operations per channel
 		// ("ghost recvs(ref) int"): waiting for a channel is then observable
 		if g := r.e.cs.Ghosts["recvs"]; g != nil && g.Arity == 1 {
